@@ -23,7 +23,7 @@ struct StartSpec {
   bool env_null = true;             // env.extra == NULL
   std::vector<std::string> env_extra;
   int wd = 0;    // 0 NULL, 1 /work (valid), 2 missing, 3 not a directory, 4 "." , 5 relative "sub"
-  int prog = 0;  // 0 /bin/prog, 1 ./prog, 2 sub/prog, 3 bare "prog" (PATH), 4 /bin/missing, 5 /bin/noexec, 6 /bin (directory), 7 bare missing, 8 "" (empty)
+  int prog = 0;  // 0 /bin/prog, 1 ./prog, 2 sub/prog, 3 bare "prog" (PATH), 4 /bin/missing, 5 /bin/noexec, 6 /bin (directory), 7 bare missing, 8 "" (empty), 9 ../<cwd name>/prog, 10 .hidden/prog
   std::vector<std::string> args;
   bool argv_null = false;
   int64_t input_size = -1;  // -1: no input
